@@ -371,6 +371,7 @@ func VerifyBLSSignatureManyMessages(
 	// structure with the map value, which adds more complexity and processing time.
 
 	// fill the 2 maps
+	hasIdentityKey := false
 	for i, pk := range pks {
 		pkBLS, ok := pk.(*pubKeyBLSBLS12381)
 		if !ok {
@@ -379,12 +380,18 @@ func VerifyBLSSignatureManyMessages(
 				i, errNotBLSKey)
 		}
 		// check identity check
+		// (the remaining keys are still inspected so that a non-BLS key at a higher index
+		// is reported with `errNotBLSKey` as documented)
 		if pkBLS.isIdentity {
-			return false, nil
+			hasIdentityKey = true
+			continue
 		}
 
 		mapPerHash[string(hashes[i])] = append(mapPerHash[string(hashes[i])], pkBLS.point)
 		mapPerPk[pkBLS.point] = append(mapPerPk[pkBLS.point], hashes[i])
+	}
+	if hasIdentityKey {
+		return false, nil
 	}
 
 	var verif (C.int)
